@@ -178,4 +178,31 @@ example : inDomain ⟨fun _ => default, fun _ => .ok []⟩
     { seq := "PEPTIDE".toList, charge := some 2, adducts := some [⟨.str "+Na+,+K+".toList, 1⟩] } Mass.ionP false
     (some ("+Na+,+K+".toList.map Char.toNat)) = true := by decide +kernel
 
+
+/-! ### from the library's tables to the independent reference -/
+
+/-- the element keys of the hand-typed monoisotopic reference (the 21 nuclides) -/
+def refKeys : List Elem := nuclides.map (·.1)
+
+/-- per key, library (data/chem.txt through the model) vs hand-typed NIST value: within 1e-8 -/
+theorem nuclide_keys_close :
+    refKeys.all (fun e => decide (-(1 / 100000000 : Rat) ≤ lib.elem true e - nist.elem true e) &&
+      decide (lib.elem true e - nist.elem true e ≤ 1 / 100000000)) = true := by decide +kernel
+
+open Pept.Mass in
+/-- **the library's monoisotopic mass of any composition over the reference nuclides is within 1e-8·Σ|count| of the
+mass computed from the hand-typed NIST table** — the bridge from "model = specification over the library's tables"
+(`mass_eq_spec_partial`) to "agreement with an independently computed reference": e.g. a peptide of 300 atoms is within
+3·10⁻⁶ Da, inside the property's 10⁻⁵ -/
+theorem reference_closeness (c : Comp) (hc : ∀ p ∈ c, p.1 ∈ refKeys) :
+    lib.compMass true c - nist.compMass true c ≤ 1 / 100000000 * l1 c ∧
+    -(1 / 100000000 * l1 c) ≤ lib.compMass true c - nist.compMass true c := by
+  apply chemMassL_close (lib.elem true) (nist.elem true) (1 / 100000000) refKeys _ c hc
+  intro e he
+  have := List.all_eq_true.mp nuclide_keys_close e he
+  simp only [Bool.and_eq_true, decide_eq_true_eq] at this
+  exact this
+
+example : ∀ p ∈ ([(kC, 34), (kH, 53), (kN, 7), (kO, 15)] : Comp), p.1 ∈ refKeys := by decide +kernel
+
 end Pept.C02
